@@ -1,7 +1,7 @@
 // Package simsync replaces package sync in instrumented SDK code: everything
 // that blocks durably inside a synctest bubble is re-exported unchanged;
-// Mutex, RWMutex and Once are shims whose contention is decided by the
-// simulator's scheduler.
+// Mutex, RWMutex, Once and WaitGroup are shims whose contention and wake-ups
+// are decided by the simulator's scheduler.
 package simsync
 
 import (
@@ -12,7 +12,6 @@ import (
 )
 
 type (
-	WaitGroup = sync.WaitGroup
 	Cond      = sync.Cond
 	Locker    = sync.Locker
 	Map       = sync.Map
@@ -28,7 +27,55 @@ var (
 	siteRLock   = zzsimrt.H("sync.RWMutex.RLock")
 	siteRUnlock = zzsimrt.H("sync.RWMutex.RUnlock")
 	siteOnce    = zzsimrt.H("sync.Once.Do")
+	siteWGAdd   = zzsimrt.H("sync.WaitGroup.Add")
+	siteWGWait  = zzsimrt.H("sync.WaitGroup.Wait")
 )
+
+// WaitGroup is a scheduler-visible sync.WaitGroup with the semantics of the real one, including its misuse
+// checks: a waiter that has been released runs whenever the scheduler picks it, and - exactly like the real
+// implementation, whose woken waiter re-reads the state word - panics if the group was reused (a new Add)
+// before it got to return. In the real runtime that window is a few instructions wide on an idle machine and
+// arbitrarily wide on a loaded one; here it is a scheduling decision on the tape.
+type WaitGroup struct {
+	counter int32
+	waiters int32
+	gen     uint32
+}
+
+// Add adds delta to the counter and releases the waiters when it reaches zero.
+func (wg *WaitGroup) Add(delta int) {
+	zzsimrt.Yield(siteWGAdd)
+	v := atomic.AddInt32(&wg.counter, int32(delta))
+	w := atomic.LoadInt32(&wg.waiters)
+	if v < 0 {
+		panic("sync: negative WaitGroup counter")
+	}
+	if w != 0 && delta > 0 && v == int32(delta) {
+		panic("sync: WaitGroup misuse: Add called concurrently with Wait")
+	}
+	if v > 0 || w == 0 {
+		return
+	}
+	atomic.StoreInt32(&wg.waiters, 0)
+	atomic.AddUint32(&wg.gen, 1)
+}
+
+// Done decrements the counter.
+func (wg *WaitGroup) Done() { wg.Add(-1) }
+
+// Wait blocks until the counter is zero.
+func (wg *WaitGroup) Wait() {
+	zzsimrt.Yield(siteWGWait)
+	if atomic.LoadInt32(&wg.counter) == 0 {
+		return
+	}
+	atomic.AddInt32(&wg.waiters, 1)
+	g := atomic.LoadUint32(&wg.gen)
+	zzsimrt.ParkUntil(siteWGWait, func() bool { return atomic.LoadUint32(&wg.gen) != g })
+	if atomic.LoadInt32(&wg.counter) != 0 || atomic.LoadInt32(&wg.waiters) != 0 {
+		panic("sync: WaitGroup is reused before previous Wait has returned")
+	}
+}
 
 // Mutex is a scheduler-visible mutual exclusion lock. The zero value is an
 // unlocked mutex; it may be copied before first use.
